@@ -405,7 +405,7 @@ func c09RunEngine(c *core.Ctx, seq []c09Shape) {
 		byText[s.text()] = s
 		lines = append(lines, s.text())
 	}
-	eng := urlfilter.NewDNSEngine(util.Storage(util.Lines(lines)))
+	eng := urlfilter.NewDNSEngine(util.StorageSplit(c.Rng, lines))
 	res, _ := eng.MatchRequest(&urlfilter.DNSRequest{Hostname: "example.com"})
 	all := res.DNSRewritesAll()
 	if len(all) != len(lines) {
